@@ -77,7 +77,7 @@ def main():
     for name, r in res.items():
         own = name.split("-")[0] if not name.startswith("regression") else ""
         if name.startswith("regression"):
-            own = {"F1": "C16", "F2": "C04", "F3": "C03", "F4": "C05", "F5": "C09", "F6": "C20", "F7": "C07", "F8": "C04", "F9": "C03", "F10": "C10", "F11": "C08", "F12": "C04", "F13": "C03", "F14": "C06", "F15": "C09", "F16": "C06", "F17": "C14", "F18": "C03", "F19": "C01", "F20": "C18", "F21": "C11", "F22": "C11", "F23": "C13", "F24": "C14", "F25": "C14", "F26": "C11", "F27": "C12", "F28": "C12", "F29": "C12", "F30": "C13", "F31": "C18", "F32": "C18", "F33": "C18", "F34": "C10", "F35": "C03", "F36": "C06", "F37": "C10", "F38": "C05"}.get(name.split("-")[1], "")
+            own = {"F1": "C16", "F2": "C04", "F3": "C03", "F4": "C05", "F5": "C09", "F6": "C20", "F7": "C07", "F8": "C04", "F9": "C03", "F10": "C10", "F11": "C08", "F12": "C04", "F13": "C03", "F14": "C06", "F15": "C09", "F16": "C06", "F17": "C14", "F18": "C03", "F19": "C01", "F20": "C18", "F21": "C11", "F22": "C11", "F23": "C13", "F24": "C14", "F25": "C14", "F26": "C11", "F27": "C12", "F28": "C12", "F29": "C12", "F30": "C13", "F31": "C18", "F32": "C18", "F33": "C18", "F34": "C10", "F35": "C03", "F36": "C06", "F37": "C10", "F38": "C05", "F39": "C02", "F40": "C03"}.get(name.split("-")[1], "")
         ownf = "yes" if r["fired"].get(own) else "NO"
         if ownf == "NO":
             miss.append(name)
